@@ -1825,3 +1825,32 @@ def n_str_trim(ex, callee, a, env):
         while hi > lo and T(ws(items[hi - 1])):
             hi -= 1
     return Slice(sl.buf, sl.start + lo, hi - lo, True)
+
+
+# ----------------------------------------------------------------------------- std feature build only: std::vec::Vec<u8> / String as writers
+@native(r'^(alloc::fmt::|std::fmt::)?format$', 'alloc::fmt::format (std feature)')
+def n_format(ex, callee, a, env):
+    h = HVec(10 ** 9, True)
+    h.std = True
+    for piece in render_arguments(ex, a[0]):
+        h.items.extend(piece)
+    return h
+
+
+@native(r'^(std|alloc)::string::String::(as_bytes|as_str)$|^String::(as_bytes|as_str)$', 'String::as_bytes (std feature)')
+def n_string_as_bytes(ex, callee, a, env):
+    v = deref(a[0])
+    return Slice(v.items, 0, len(v.items), callee.endswith('as_str'))
+
+
+@native(r'^(std|alloc)::vec::Vec(::<.*>)?::extend_from_slice$', 'std Vec::extend_from_slice (std feature)')
+def n_stdvec_extend(ex, callee, a, env):
+    v, sl = deref(a[0]), as_slice(a[1])
+    v.items.extend(sl.items())
+    return UNIT
+
+
+@native(r'^(std|alloc)::vec::Vec(::<.*>)?::push$', 'std Vec::push (std feature)')
+def n_stdvec_push(ex, callee, a, env):
+    deref(a[0]).items.append(a[1])
+    return UNIT
